@@ -314,8 +314,9 @@ class LessParser(object):
 
     def p_font_face_open(self, p):
         """ block_open                : css_font_face t_ws brace_open
+                                      | css_font_face brace_open
         """
-        p[0] = Identifier([p[1], p[2]]).parse(self.scope)
+        p[0] = Identifier([p[1], ' ']).parse(self.scope)
 
     def p_keyframe_open(self, p):
         """block_open                 : css_keyframe_selector brace_open
